@@ -30,7 +30,10 @@ func vh_C11_connect_reply_first() {
 	}
 	tr := vNewTransport()
 	c := vNewClient(n, "u", tr)
-	other := vChoice("other", 5)
+	other := vChoice("other", vParam("c11_racers", 6))
+	if other == 5 {
+		vAssume(!positioned) // for a positioned subscription this is racer 0
+	}
 	racer := func() {
 		switch other {
 		case 0:
@@ -45,6 +48,10 @@ func vh_C11_connect_reply_first() {
 			_ = n.Disconnect("u")
 		case 3:
 			_ = n.Unsubscribe("u", "s")
+		case 5:
+			// a publication that carries an offset (history) to the NON-positioned
+			// connect-time subscription: delivered only to established subscriptions
+			_, _ = n.Publish("s", []byte("{}"), WithHistory(3, 60_000_000_000))
 		default:
 			_ = n.Refresh("u", WithRefreshExpired(true))
 		}
@@ -136,7 +143,7 @@ func vFrameKind(r *protocol.Reply) string {
 }
 
 func vRacerName(k int) string {
-	return [...]string{"publish", "node-subscribe", "node-disconnect", "node-unsubscribe", "node-refresh"}[k]
+	return [...]string{"publish", "node-subscribe", "node-disconnect", "node-unsubscribe", "node-refresh", "publish-with-offset"}[k]
 }
 
 // vDictTransport is a recording transport that also implements
